@@ -64,6 +64,18 @@ Theorem c12_versions_strictly_increase : forall cb cfg ops st' vs,
 Proof. exact versions_strictly_increase_from_init. Qed.
 Print Assumptions c12_versions_strictly_increase.
 
+(* ... and from ANY state, not only an empty DB: whenever the last id assigned so far is [lo] and the stored counter
+   lies between [lo] and the in-memory one (true of an empty DB with lo = -1, of every state reached by requests and
+   restarts, of a DB installed from a snapshot), every id assigned by any continuation of requests and restarts is
+   strictly greater than [lo] and than every id assigned before it. *)
+Theorem c12_versions_strictly_increase_any_state : forall cb cfg ops st lo st' vs,
+  run_hist cb cfg st ops = (st', vs) ->
+  ver_consistent st lo -> hist_offsets_ok ops ->
+  (- TWO63 <= lo)%Z -> (st_ver st + Z.of_nat (hist_puts ops) < TWO63)%Z ->
+  increasing_from lo vs.
+Proof. exact versions_increase_across_restarts. Qed.
+Print Assumptions c12_versions_strictly_increase_any_state.
+
 Theorem c12_reopen_after_commit : forall cb cfg st req offset ts st' resp,
   process_write cb cfg st req offset ts = (st', Ok resp) ->
   int64 offset -> int64 (st_ver st') ->
